@@ -1995,6 +1995,8 @@ class Change(Output):
         labels = data.get_legend()
         # Find range
         [obs, fcst] = data.get_scores([verif.field.Obs(), verif.field.Fcst()], 0)
+        if obs.shape[0] < 2:
+            verif.util.error("Change plot needs at least two forecast initialization times")
         if self.thresholds is None:
             change = obs[1:, Ellipsis] - obs[0:-1, Ellipsis]
             maxChange = np.nanmax(abs(change.flatten()))
